@@ -14,6 +14,11 @@ CHECKS = {
    text="From every pre-state of a catalog/KV/session BFS, every list (length<=2 over 39 verbs; length 3 over a focused subset in thorough) is applied as one Txn raft command, which places a failing operation at every position. Failure => full 36-table dump identical, no event batch published, no tombstone-GC hint deferred, no watch channel fired (fresh-instance pass), no results. Success => every changed row carries the entry's index and content equals applying the same operations one by one. Read-only transactions leave the dump identical.",
    note="Watch-channel firing is only observable on a primary memdb, so that clause runs on freshly replayed instances from the seed states only. Stand-alone equivalents exist for non-CAS verbs; lists containing catalog CAS verbs are checked for atomicity but not differentially.",
    design="§3 C05"),
+ "C06": dict(level="model_checking", engine="E1 opseq-BFS",
+   technique="explicit-state BFS over write commands on freshly replayed instances x instantiated read queries; index-monotonicity and watch-firing oracle on every (transition, query) pair",
+   text="Every transition of a BFS over the write alphabet (catalog, KV, sessions, transactions, prepared queries, config entries, intentions in both formats, CA, peering) is paired with every instantiated read query (KV get/list, sessions, nodes/services/service nodes/node services for local and peer rows, connect, tag filters, health, checks in state, gateway services, coordinates, config entries, intention list/match, prepared queries, CA roots/config, peering reads, trust bundles, exported services). Before/after: result changed => reported index strictly larger and a watch channel of the query's WatchSet fired; the index never decreases except on tombstone reap.",
+   note="Runs on freshly replayed instances because watch channels only fire on a primary memdb. KVS.Get's endpoint index rule and the 0->1 clamp are mirrored. One known finding (connect query index slides back when a gateway link disappears) and one repaired defect.",
+   design="§3 C06"),
  "C07": dict(level="model_checking", engine="E1 opseq-BFS",
    technique="explicit-state BFS over catalog/config-entry/txn command sequences on the real FSM; orphan and cascade invariants, derived views recomputed from base tables, rebuild differential",
    text="Every command sequence (to the reported depth, from every seed) over node/service/check register and deregister (typical, connect-proxy with upstreams, connect-native, terminating/ingress gateways, instance IDs different from names, peer-imported rows, rename by ID), gateway / service-defaults(destination) / proxy-defaults entries, virtual-IP switches, manual VIPs, coordinates and catalog transactions. On every reached state: no service/check/coordinate without its node, no service check without its instance; kind-service-names and the proxy upstream/downstream table (with per-instance references) recomputed from the registrations; gateway links checked against the config entries (exact => link, link => covered, wildcard => qualifying services, stale wildcard links); virtual IPs injective, free list disjoint, advertised == assigned; kind-service-names, proxy topology and usage counters compared with a store rebuilt from the base rows alone in two canonical orders. On every transition: an assignment is only released when no instance of the service remains.",
